@@ -115,7 +115,10 @@ def boot(hostname, boot_port=consts.BOOT_PORT,
         struct_data = f.read()
     structs = struct_file.read_struct_file(struct_data)
     sv = structs[b"sv"]
-    sv_overrides.update(kwargs)  # Allow non-explicit keyword arguments for SV
+    # Allow non-explicit keyword arguments for SV (without modifying the
+    # caller's dictionary or the shared default argument)
+    sv_overrides = dict(sv_overrides)
+    sv_overrides.update(kwargs)
     sv.update_default_values(**sv_overrides)
     sv.update_default_values(unix_time=int(time.time()),
                              boot_sig=int(time.time()),
